@@ -252,7 +252,7 @@ func main() {
 	for _, f := range files {
 		base := filepath.Base(f)
 		if strings.HasSuffix(base, "_test.go") || strings.HasSuffix(base, "_bsd.go") ||
-			strings.HasSuffix(base, "_arm64.go") || strings.Contains(base, "_race_") ||
+			strings.HasSuffix(base, "_arm64.go") ||
 			strings.HasPrefix(base, "zz_verif") {
 			continue
 		}
@@ -262,6 +262,9 @@ func main() {
 			os.Exit(3)
 		}
 		parsed[base] = af
+		if strings.Contains(base, "_race_") {
+			continue // the -race variant of the dispatcher: functions only (its constants duplicate the normal file's)
+		}
 		for _, d := range af.Decls {
 			gd, ok := d.(*ast.GenDecl)
 			if !ok || gd.Tok != token.CONST {
@@ -330,6 +333,9 @@ func main() {
 			recv, fn = fn[:i], fn[i+1:]
 		}
 		name := leanIdent(fs[1])
+		if len(fs) >= 3 && !strings.HasPrefix(fs[2], "--") {
+			name = leanIdent(fs[2]) // explicit name (two files define the same function under different build tags)
+		}
 		order = append(order, name)
 		af := parsed[file]
 		var found *ast.FuncDecl
